@@ -60,6 +60,8 @@ class Trace:
                 ret, after = sx.bnd(o[0]), tabs(o[1])
             elif t == 14:
                 ret, after = sx.q(o[0]), cur
+            elif t == 17:
+                ret, after = o, cur
             else:
                 after = cur
             yield {"n": n, "op": op, "ret": ret, "amt": amt, "before": cur, "after": after, "world": list(world), "error": None}
@@ -523,6 +525,37 @@ def mon_c18_loss(sc, obs):
     return None
 
 
+@monitor("fol_c18_sup")
+def mon_c18_sup(sc, obs):
+    """supervised loss of a first-order formula = mean squared error over the labelled groundings present in its table:
+    >= 0, zero iff every such row equals its label, independent of the order in which labels were given"""
+    if whole_error(obs):
+        return None
+    tr = Trace(sc, obs)
+    for st in tr.steps():
+        if st["error"] is not None or st["after"] is None:
+            return None
+        if st["op"][0] != 17:
+            continue
+        labs = {}
+        for i, d in st["op"][1]:
+            for g, b in d:
+                labs.setdefault(i, {})[tuple(g)] = sx.bnd(b)
+        for i in range(tr.n):
+            rows = [(st["after"][i][g], l) for g, l in labs.get(i, {}).items() if g in st["after"][i]]
+            r = st["ret"][i]
+            if not rows:
+                if r != -1:
+                    return (f"op #{st['n']}: formula {i} has no labelled grounding in its table: no supervised loss", f"{r}", None)
+                continue
+            if r == -1:
+                return (f"op #{st['n']}: formula {i} has {len(rows)} labelled groundings in its table: a supervised loss", "none", None)
+            sse = sum(((a[0] - l[0]) ** 2 + (a[1] - l[1]) ** 2 for a, l in rows), F(0))
+            if sx.q(r[0]) != sse or r[1] != len(rows):
+                return (f"op #{st['n']}: supervised loss of formula {i} x 2n = sum of squared errors over its {len(rows)} labelled rows = {sse} (zero iff every row equals its label)", f"{sx.q(r[0])} over {r[1]} rows", None)
+    return None
+
+
 def c18_fol_part(ctx):
     rng = ctx.rng("c18fol")
     scs, meta = gen_fol.gen_k40(rng, 200 if ctx.quick else 2500)
@@ -534,6 +567,20 @@ def c18_fol_part(ctx):
             if op[0] in (3, 4, 5, 8) or rng.random() < 0.2:
                 ops.append([14])
         sc[5] = ops + [[5, -1, 30], [14], [9]]
+    # supervised loss: unit-weight KBs (bounds stay on the 1/8 grid, so loss x 2n is recovered exactly), labels in random
+    # order on random groundings (present or not), some equal to the row they label
+    scs2, meta2 = gen_fol.gen_k40(rng, 150 if ctx.quick else 2000, weighted=False)
+    for sc in scs2:
+        kb = sc[1]
+        labs = []
+        for i, o in enumerate(kb):
+            if rng.random() < 0.7:
+                gs = all_gnds(o[3], 3)
+                rng.shuffle(gs)
+                d = [[list(g), rng.choice([[F(1), F(1)], [F(0), F(0)], [F(0), F(1)], gen_fol.rnd_fact(rng, 0.3)])] for g in gs[:rng.choice([1, 2, 3, 5, 9])]]
+                labs.append([i, d])
+        sc[5] = [op for op in sc[5] if op[0] != 11] + [[5, -1, 30], [17, labs]]
+    run_fol(ctx, "K6 first-order engine (+supervised loss per formula against labels in random order)", scs2, ["fol_c18_sup"])
     m, impl, lines = run_fol(ctx, "K6 first-order engine (+contradiction loss after model-level calls)", scs, ["fol_c18_loss", "fol_c17"])
     pos = 0
     for sc, o in zip(scs, impl[0]):
